@@ -19,20 +19,24 @@ impl<K: Eq, V> HashMap<K, V> {
     pub fn remove<Q: ?Sized + Eq>(&mut self, k: &Q) -> Option<V> where K: Borrow<Q> { match self.pos(k) { Some(i) => Some(self.items.remove(i).1), None => None } }
     pub fn len(&self) -> usize { self.items.len() }
     pub fn is_empty(&self) -> bool { self.items.is_empty() }
-    pub fn iter(&self) -> Iter<'_, K, V> { Iter { it: self.items.iter() } }
+    pub fn iter(&self) -> Iter<'_, K, V> { Iter::over(&self.items) }
     pub fn keys(&self) -> Keys<'_, K, V> { Keys { it: self.items.iter() } }
     pub fn values(&self) -> Values<'_, K, V> { Values { it: self.items.iter() } }
     pub fn clear(&mut self) { self.items.clear() }
 }
-pub struct Iter<'a, K, V> { it: std::slice::Iter<'a, (K, V)> }
-impl<'a, K, V> Iterator for Iter<'a, K, V> { type Item = (&'a K, &'a V); fn next(&mut self) -> Option<Self::Item> { self.it.next().map(|kv| (&kv.0, &kv.1)) } }
-impl<'a, K, V> Clone for Iter<'a, K, V> { fn clone(&self) -> Self { Iter { it: self.it.clone() } } }
+/// iteration order of a real HashMap is unspecified: iteration starts at a rotation offset that a harness may set
+/// (ITER_ROT, default 0 = insertion order); lookups are unaffected
+pub static mut ITER_ROT: usize = 0;
+pub struct Iter<'a, K, V> { v: &'a Vec<(K, V)>, i: usize, r: usize }
+impl<'a, K, V> Iter<'a, K, V> { fn over(v: &'a Vec<(K, V)>) -> Self { let n = v.len(); Iter { v, i: 0, r: if n == 0 { 0 } else { (unsafe { ITER_ROT }) % n } } } }
+impl<'a, K, V> Iterator for Iter<'a, K, V> { type Item = (&'a K, &'a V); fn next(&mut self) -> Option<Self::Item> { let n = self.v.len(); if self.i >= n { return None; } let kv = &self.v[(self.i + self.r) % n]; self.i += 1; Some((&kv.0, &kv.1)) } }
+impl<'a, K, V> Clone for Iter<'a, K, V> { fn clone(&self) -> Self { Iter { v: self.v, i: self.i, r: self.r } } }
 pub struct Keys<'a, K, V> { it: std::slice::Iter<'a, (K, V)> }
 impl<'a, K, V> Iterator for Keys<'a, K, V> { type Item = &'a K; fn next(&mut self) -> Option<&'a K> { self.it.next().map(|kv| &kv.0) } }
 impl<'a, K, V> ExactSizeIterator for Keys<'a, K, V> { fn len(&self) -> usize { self.it.len() } }
 pub struct Values<'a, K, V> { it: std::slice::Iter<'a, (K, V)> }
 impl<'a, K, V> Iterator for Values<'a, K, V> { type Item = &'a V; fn next(&mut self) -> Option<&'a V> { self.it.next().map(|kv| &kv.1) } }
-impl<'a, K, V> IntoIterator for &'a HashMap<K, V> { type Item = (&'a K, &'a V); type IntoIter = Iter<'a, K, V>; fn into_iter(self) -> Iter<'a, K, V> { Iter { it: self.items.iter() } } }
+impl<'a, K, V> IntoIterator for &'a HashMap<K, V> { type Item = (&'a K, &'a V); type IntoIter = Iter<'a, K, V>; fn into_iter(self) -> Iter<'a, K, V> { Iter::over(&self.items) } }
 impl<K, V> IntoIterator for HashMap<K, V> { type Item = (K, V); type IntoIter = std::vec::IntoIter<(K, V)>; fn into_iter(self) -> Self::IntoIter { self.items.into_iter() } }
 impl<K: Eq, V> std::iter::FromIterator<(K, V)> for HashMap<K, V> { fn from_iter<I: IntoIterator<Item = (K, V)>>(it: I) -> Self { let mut m = HashMap::new(); for (k, v) in it { m.insert(k, v); } m } }
 // ---- wider API surface (so that realistic edits of the repository still compile against the model)
@@ -93,7 +97,7 @@ impl<'a, K, V> Iterator for ValuesMut<'a, K, V> { type Item = &'a mut V; fn next
 pub struct IterMut<'a, K, V> { it: std::slice::IterMut<'a, (K, V)> }
 impl<'a, K, V> Iterator for IterMut<'a, K, V> { type Item = (&'a K, &'a mut V); fn next(&mut self) -> Option<Self::Item> { self.it.next().map(|kv| (&kv.0, &mut kv.1)) } }
 impl<'a, K, V> IntoIterator for &'a mut HashMap<K, V> { type Item = (&'a K, &'a mut V); type IntoIter = IterMut<'a, K, V>; fn into_iter(self) -> IterMut<'a, K, V> { IterMut { it: self.items.iter_mut() } } }
-impl<'a, K, V> ExactSizeIterator for Iter<'a, K, V> { fn len(&self) -> usize { self.it.len() } }
+impl<'a, K, V> ExactSizeIterator for Iter<'a, K, V> { fn len(&self) -> usize { self.v.len() - self.i } }
 impl<'a, K, V> ExactSizeIterator for Values<'a, K, V> { fn len(&self) -> usize { self.it.len() } }
 impl<'a, K, V> Clone for Keys<'a, K, V> { fn clone(&self) -> Self { Keys { it: self.it.clone() } } }
 impl<'a, K, V> Clone for Values<'a, K, V> { fn clone(&self) -> Self { Values { it: self.it.clone() } } }
